@@ -43,8 +43,11 @@ class C06(Prop):
                   "entry}, that every returned case is internally possible, and that an error is returned exactly for contradictory or "
                   "empty configurations; the model is tied to the Go code by a bounded-exhaustive plus random differential run through "
                   "the real YAML parser on every check.")
-    level_note = ("Trusted: Coq kernel, extraction, OCaml driver, harness; the correspondence between model and Go code is sampled "
-                  "(all 3^7 flag tri-states, all single entries over the interacting axes, thousands of random configs), not proved.")
+    level_note = ("Nothing partial: parse_ok_iff, parse_valid, parse_err_iff, parse_ok_when hold for every configuration (no well-formedness "
+                  "hypothesis: lists with *_UNSPECIFIED/CODEC_TEXT members and duplicate members are covered); observable_faithful shows the "
+                  "compared key list determines the case set for enum numbers below 16. Trusted: Coq kernel, extraction, OCaml driver, "
+                  "harness; the correspondence between model and Go code is sampled (all 3^7 flag tri-states, all single entries over the "
+                  "interacting axes, thousands of random configs), not proved.")
     technique = "Coq proof of model = set-comprehension spec (membership characterisation of the nested loops); differential model-vs-Go correspondence"
 
     def nontrivial(self, case, res):
